@@ -28,7 +28,7 @@ PROPS = {
     "C12": {"theorems": ["C12_flat_unparse_is_source_text_partial", "C12_deep_unparse_is_the_text_of_its_tokens", "C12_printed_tokens_parse_back", "C12_printed_tokens_parse_back_to_the_same_expression", "C12_parsed_expressions_record_unary_operators", "C12_flat_from_deep_prints_the_deep_text"], "modes": [{"name": "c12", "quick_n": 400, "thorough_n": 3000, "shard": 60}, {"name": "c12d", "quick_n": 150, "thorough_n": 1500, "shard": 20}]},
     "C13": {"theorems": ["C13_extended_name_is_variable", "C13_sign_unary_iff", "C13_numeric_literal", "C13_brace_is_one_var", "C13_longest_operator_name_wins"], "modes": [{"name": "c13", "quick_n": 3, "thorough_n": 12, "shard": 120}]},
     "C15": {"theorems": ["C15_consuming_eq_cloning", "C15_arity"], "modes": [{"name": "c15", "quick_n": 150, "thorough_n": 1500, "shard": 60}]},
-    "C05": {"theorems": ["C05_partial_is_the_derivative", "C05_partial_evaluates_to_the_derivative", "C05_parsed_expressions_qualify", "C05_consistent_expressions_qualify", "C05_derivatives_qualify", "C05_rule_names_match_code_partial", "C05_no_rule_for_nondifferentiable_partial", "C05_missing_binary_rule_is_error_partial", "C05_unary_rules_are_derivatives_partial", "C05_binary_rules_are_derivatives_partial"], "axioms": REAL_AXIOMS, "modes": [{"name": "c05", "quick_n": 400, "thorough_n": 3000, "shard": 30}]},
+    "C05": {"theorems": ["C05_partial_is_the_derivative", "C05_partial_evaluates_to_the_derivative", "C05_parsed_expressions_qualify", "C05_consistent_expressions_qualify", "C05_derivatives_qualify", "C05_flat_partial_is_the_derivative", "C05_rule_names_match_code_partial", "C05_no_rule_for_nondifferentiable_partial", "C05_missing_binary_rule_is_error_partial", "C05_unary_rules_are_derivatives_partial", "C05_binary_rules_are_derivatives_partial"], "axioms": REAL_AXIOMS, "modes": [{"name": "c05", "quick_n": 400, "thorough_n": 3000, "shard": 30}]},
     "C09": {"theorems": ["C09_index_checked_first_partial", "C09_order_zero_partial", "C09_derivative_keeps_the_variable_list", "C09_same_values_evaluate_both", "C09_iterated_is_the_sequence_of_single_steps"], "axioms": REAL_AXIOMS, "modes": [{"name": "c09", "quick_n": 200, "thorough_n": 1500, "shard": 20}]},
     "C18": {"theorems": ["C18_condition_and_branch_rules_partial", "C18_rule_semantics_partial"], "modes": [{"name": "c18", "quick_n": 300, "thorough_n": 2500, "shard": 30}]},
     "C06": {"theorems": ["C06_tokenizer_total_partial", "C06_preconditions_total_partial", "C06_flat_parse_never_panics", "C06_parsed_flat_expressions_evaluate", "C06_deep_parse_never_panics"], "nesting": True, "modes": [{"name": "c06", "quick_n": 1500, "thorough_n": 12000, "shard": 150, "profiles": ["dev", "release"]}]},
